@@ -416,3 +416,15 @@ pub fn seeds() -> Vec<(Program, bool)> {
     v.push((p, false));
     v
 }
+
+/// Candidate label spellings around the lexer's other token classes, with the documented verdict:
+/// a label is a word of [A-Za-z0-9_] that is not a mnemonic / trap name (any case), not a register
+/// `r0`..`r7`, and not a hex literal (`x`/`X`/`0x`/`0X` followed by hex digits).
+pub fn label_names() -> Vec<&'static str> {
+    vec![
+        "a", "Z", "_", "__", "a1", "A_b_9", "loop", "LOOP", "Loop", "l00p", "x", "X", "xg", "x_1", "X_S", "xhalt", "Xout", "xin", "xret", "xnot", "xbr", "xld", "xreg", "xputs", "xtrap",
+        "xyz", "xz1", "x1g", "0xg", "0xhalt", "0Xret", "r8", "r9", "R8", "r10", "r77", "r0a", "R7_", "rx", "r", "R", "adds", "addx", "add1", "_add", "andy", "brx", "brnzpx", "brn1", "jmpr", "jsrrr",
+        "ldx", "ldrr", "leaf", "nott", "rett", "rtis", "stx", "strs", "halts", "halt1", "traps", "getch", "outs", "puts1", "ins", "inn", "putspp", "putn_", "regs", "reg0",
+        "9lives", "0abc", "1", "00", "123", "pushx", "popp", "calls", "retss", "end", "orig", "fill", "blkw", "stringz", "break_",
+    ]
+}
